@@ -180,6 +180,18 @@ pub struct Gc<T: Default + Reset + Traceable> {
     space: Weak<RefCell<Space<T>>>,
 }
 
+impl<T: Default + Reset + Traceable> Gc<T> {
+    /// Whether the heap this handle points into still exists (the handle may outlive it)
+    pub fn is_alive(&self) -> bool {
+        self.space.strong_count() > 0
+    }
+
+    /// Whether this handle points into `heap`
+    pub fn belongs_to(&self, heap: &Heap<T>) -> bool {
+        core::ptr::eq(self.space.as_ptr(), Rc::as_ptr(&heap.inner))
+    }
+}
+
 impl<T: Default + Reset + Traceable> PartialEq for Gc<T> {
     fn eq(&self, other: &Self) -> bool {
         self.ptr == other.ptr
